@@ -5,6 +5,8 @@ import (
 	"encoding/xml"
 	"errors"
 	"io"
+	"net/url"
+	"path"
 	"strings"
 )
 
@@ -97,6 +99,44 @@ func hasEncryptedContent(f *zip.File) (bool, error) {
 	}
 
 	return false, nil
+}
+
+// encryptedResources returns the container paths that encryption.xml lists with
+// an algorithm other than font obfuscation. It is used after the package
+// document has been read, to recognise encrypted content documents by their
+// role in the package (spine items) rather than by their file suffix.
+func encryptedResources(zr *zip.Reader) map[string]bool {
+	resources := make(map[string]bool)
+	for _, f := range zr.File {
+		if f.Name != "META-INF/encryption.xml" {
+			continue
+		}
+		rc, err := f.Open()
+		if err != nil {
+			return resources
+		}
+		data, err := io.ReadAll(rc)
+		rc.Close()
+		if err != nil {
+			return resources
+		}
+		var enc encryptionXML
+		if err := xml.Unmarshal(data, &enc); err != nil {
+			return resources
+		}
+		for _, ed := range enc.EncryptedData {
+			if isFontObfuscation(ed.EncryptionMethod.Algorithm) {
+				continue
+			}
+			uri := ed.CipherData.CipherReference.URI
+			if decoded, err := url.PathUnescape(uri); err == nil {
+				uri = decoded
+			}
+			uri = strings.TrimPrefix(path.Clean("/"+uri), "/")
+			resources[uri] = true
+		}
+	}
+	return resources
 }
 
 // isFontObfuscation returns true if the algorithm is a font obfuscation method.
